@@ -122,6 +122,13 @@ def run_case(case, ctx):
     kw = {}
     if method == "or" and case["thetas"] is not None:
         kw = {"lowest_theta": case["thetas"][0], "highest_theta": case["thetas"][1]}
+    # memory layout of the caller's sample: row-major, column-major, transposed view
+    layout = ["C", "F", "transposed", "C"][(int(case["sub"]) // 7) % 4]
+    ctx.cls("sample-layout", layout)
+    if layout == "F":
+        sample = np.asfortranarray(sample)
+    elif layout == "transposed":
+        sample = np.array([sample[:, 0], sample[:, 1]]).T
     before = sample.copy()
     with warnings.catch_warnings(record=True) as rec:
         warnings.simplefilter("always")
